@@ -147,6 +147,8 @@ impl World {
     pub fn advance_clock(&mut self, dt: i64) {
         self.bank.clock.unix_timestamp += dt;
         self.bank.clock.slot += (dt.max(0) as u64) * 2 + 1;
+        // an epoch is about two days
+        self.bank.clock.epoch += (dt.max(0) as u64) / 172_800;
     }
 
     /// Execute on the live bank (commit on success).
